@@ -4,7 +4,14 @@ J="${1:-4}"; PAT="${2:-}"
 OUT=/verif/.work/seedsweep.log; : > "$OUT"
 cd /verif
 ls seeded | grep "$PAT" | xargs -P "$J" -I{} sh -c '
-  n={}; prop=$(/venv/bin/python -c "import json;m=json.load(open(\"seeded/$n/meta.json\"));c=m.get(\"checked_with\",\"\").split();import re;print(c[-1] if c and re.match(\"^C[0-9][0-9]$\",c[-1]) else m[\"property\"])")
-  r=$(MUT_LINES=0 tools/mutcheck.sh seeded/$n/patch.diff $prop 2>&1 | grep -m1 "^exit=")
+  n={}
+  set -- $(/venv/bin/python -c "
+import json,re
+m=json.load(open(\"seeded/$n/meta.json\")); c=m.get(\"checked_with\",\"\").split()
+prop=c[-1] if c and re.match(\"^(C[0-9][0-9]|EXT)\$\",c[-1]) else m[\"property\"]
+env=[t for t in c if t.startswith(\"VERIF_EXT=\")]
+print(prop, env[0] if env else \"VERIF_EXT=\")")
+  prop=$1; envset=$2
+  r=$(env $envset MUT_LINES=0 tools/mutcheck.sh seeded/$n/patch.diff $prop 2>&1 | grep -m1 "^exit=")
   echo "$n $prop $r" >> /verif/.work/seedsweep.log'
 sort "$OUT"
